@@ -295,7 +295,7 @@ package motion
 //@   requires mp != nil && mp.wired() && mp.PInvC()
 //@   modifies mp.log.previousTime, mp.log.previousEntry, mp.log.gLast, mp.log.gTime, mp.log.gPrinted, mp.log.gNow
 //@   modifies mp.crFrames, mp.constantRecorder.open, mp.constantRecorder.stops, mp.constantRecorder.stopOK
-//@   ensures [C12,C13] mp.PInvC() && (mp.constantRecording ==> !mp.constantRecorder.open)
+//@   ensures [C12,C13,C17] mp.PInvC() && (mp.constantRecording ==> !mp.constantRecorder.open)
 //@   ensures [C13] mp.constantRecording ==> mp.constantRecorder.writes == old(mp.constantRecorder.writes)
 //@   ensures mp.log.inv()
 //@   ensures [C20] ncalls("log.Printf") == 0 && ncalls("log.Print") == 0 && ncalls("log.Println") == 0
@@ -362,8 +362,8 @@ package motion
 //@   ensures [C03] mp.recLen()
 //@   ensures [C04] mp.recRun()
 //@   ensures [C12,C17] mp.PInvC() && mp.PInvS()
-//@   ensures [C14,C09] ncalls("Reset") == 1 && ncalls("stopRecording") == 1
-//@   ensures [C09,C14] mp.motionDetector.flooredFrames.n() == 0 && mp.motionDetector.diffFrames.n() == 0 && mp.motionDetector.epoch == 0 && mp.motionDetector.backgroundFrames == 0
+//@   ensures [C07,C09,C14,C15] ncalls("Reset") == 1 && ncalls("stopRecording") == 1
+//@   ensures [C07,C09,C14,C15] mp.motionDetector.flooredFrames.n() == 0 && mp.motionDetector.diffFrames.n() == 0 && mp.motionDetector.epoch == 0 && mp.motionDetector.backgroundFrames == 0
 //@   ensures [C12] mp.recorder.stops == old(mp.recorder.stops) + (old(mp.isRecording) ? 1 : 0) && mp.recorder.writes == old(mp.recorder.writes)
 //@   ensures [C20] ncalls("log.Printf") == 0 && ncalls("log.Print") == 0 && ncalls("log.Println") == 0
 
@@ -398,7 +398,7 @@ package motion
 //@   ensures [C04] mp.recRun()
 //@   ensures [C12,C17] mp.PInvC() && mp.PInvS()
 //@   check [C13] result == perr
-//@   ensures [C13] ncalls("parseFrame") == 1 && callarg("parseFrame", 1, 1) == rawFrame && callarg("parseFrame", 1, 2) == old(mp.frameLoop.frames[mp.frameLoop.currentIndex]) && callarg("parseFrame", 1, 3) == old(mp.motionDetector.start)
+//@   ensures [C08,C13] ncalls("parseFrame") == 1 && callarg("parseFrame", 1, 1) == rawFrame && callarg("parseFrame", 1, 2) == old(mp.frameLoop.frames[mp.frameLoop.currentIndex]) && callarg("parseFrame", 1, 3) == old(mp.motionDetector.start)
 //@   ensures [C13] result != nil ==> ncalls("process") == 0 && ncalls("processConstantRecorder") == 0 && ncalls("processSnapshot") == 0
 //@   ensures [C13] result != nil ==> mp.frameLoop.n() == old(mp.frameLoop.n()) && !mp.isRecording && !mp.recorder.open && (mp.constantRecording ==> !mp.constantRecorder.open)
 //@   ensures [C13] result != nil ==> mp.recorder.writes == old(mp.recorder.writes) && mp.constantRecorder.writes == old(mp.constantRecorder.writes) && mp.snapshotRecorder.writes == old(mp.snapshotRecorder.writes)
